@@ -143,6 +143,7 @@ type bWorld struct {
 	clientsDone []bool
 	opsPerDID   int
 	label       string
+	alias       string
 	kg          workload.KeyGen
 
 	rates     map[string]int
@@ -424,7 +425,15 @@ func runWorldB(rc *RunCtx, prop string) *RunResult {
 		hopts = append(hopts, dochandler.WithUnpublishedOperationStore(w.unpub, allTypes))
 	}
 
-	w.handler = dochandler.New(bNS, nil, w.proto, w.writer, w.proc, &mocks.MetricsProvider{}, hopts...)
+	// optional namespace alias: the same DIDs are also addressable under a second prefix
+	var aliases []string
+
+	if T.Draw(3, "cfg.alias") == 0 {
+		w.alias = "did:alias"
+		aliases = []string{w.alias}
+	}
+
+	w.handler = dochandler.New(bNS, aliases, w.proto, w.writer, w.proc, &mocks.MetricsProvider{}, hopts...)
 	w.update = restdoc.NewUpdateHandler(w.handler, w.proto, &mocks.MetricsProvider{})
 	resolve := restdoc.NewResolveHandler(w.handler, &mocks.MetricsProvider{})
 	w.router = mux.NewRouter()
@@ -2113,6 +2122,32 @@ func (w *bWorld) externalChecks(d *bDID, st *refmodel.State) {
 
 			return
 		}
+	}
+
+	// the DID addressed under the configured namespace alias shows the same document (only the DID strings differ)
+	if w.alias != "" {
+		aliasDID := w.alias + ":" + d.Suffix
+		strip := func(m map[string]interface{}, id string) string {
+			docm, _ := m["didDocument"].(map[string]interface{})
+			b, _ := json.Marshal(docm)
+
+			return strings.ReplaceAll(string(b), id, "DID")
+		}
+
+		acode, am := w.get(aliasDID)
+		if acode != http.StatusOK {
+			w.fail("C20", "end-to-end/alias-resolve", fmt.Sprintf("did%d resolves as %s but the alias form %s answered %d %v", d.Idx, did, aliasDID, acode, am))
+
+			return
+		}
+
+		if a, b := strip(am, aliasDID), strip(short, did); a != b {
+			w.fail("C20", "end-to-end/alias-document", fmt.Sprintf("did%d: the document resolved under the alias differs beyond the DID string:\n alias:     %s\n canonical: %s", d.Idx, a, b))
+
+			return
+		}
+
+		w.k.Count("probe:alias-form-agrees")
 	}
 
 	// create response vs long form vs short form: only meaningful while the DID is still in its created state
